@@ -51,6 +51,8 @@ where
     /*@*/     &&& ops_full(self.old_(), self.new_(), ops, self.bcur(), false)
     /*@*/ /*S*/     &&& (r0.lvl >= 2 ==> ops_full(self.old_(), self.new_(), ops, self.bcur(), true))   // [C11]
     /*@*/     &&& esum(ops, ops.len() as int) == self.rst().eqs - r0.eqs
+    /*@*/     // every Insert sent on is the last op or sits in front of an Equal it cannot slide across
+    /*@*/     &&& ins_stuck(self.rel(), ops)   // [C09]
     /*@*/     &&& self.inner().trace() == evs_of(ops) + fin::<D>()   // the inner hook was fresh
     /*@*/     &&& !self.inner().failed()
     /*@*/     &&& (self.inner().relies() ==> self.inner().rely_st() == run_rel(self.inner().rely_rel(), self.ist0_(), evs_of(ops) + fin::<D>()) && self.inner().rely_st().ok)
@@ -213,6 +215,7 @@ where
         /*@*/ let ghost mut k: int = 0;
         /*@*/ proof {
         /*@*/     assert(ops_full(self.old, self.new, ops1, bc, false));
+        /*@*/     assert(ins_stuck(rel, ops1));   // [C09]
         /*@*/ /*S*/     assert(r0.lvl >= 2 ==> ops_full(self.old, self.new, ops1, bc, true));   // [C11]
         /*@*/     assert(ops1.take(0) =~= Seq::<DiffOp>::empty());
         /*@*/     assert(evs_of(Seq::<DiffOp>::empty()) =~= Seq::<Ev>::empty());
@@ -230,6 +233,7 @@ where
         /*@*/         ops_full(self.old, self.new, ops1, bc, false),
         /*@*/ /*S*/         r0.lvl >= 2 ==> ops_full(self.old, self.new, ops1, bc, true),   // [C11]
         /*@*/         esum(ops1, ops1.len() as int) == pre.rst().eqs - r0.eqs,
+        /*@*/         ins_stuck(rel, ops1),   // [C09]
         /*@*/         self.d.fobs() == pre.inner().fobs(), self.d.config() == pre.inner().config(),
         /*@*/         !self.d.failed(), self.d.relies() == pre.inner().relies(), self.d.rely_rel() == irel, self.d.accepts_replace() == pre.inner().accepts_replace(),
         /*@*/         self.d.trace() == evs_of(ops1.take(k)),
